@@ -19,13 +19,19 @@ def run(prog: Program, rep: Report):
     lines = _lines_field(prog, fam)
     mut = prog.cls("BaseMutableRandomLineAccessFile", FILES_MOD)
     rec = prog.cls("BaseMutableRecordFile", FILES_MOD)
-    r1_delegation(prog, rep, fam, mut, lines)
-    r2_tagged(prog, rep, fam, mut, rec, lines)
-    r3_dirty(prog, rep, fam, mut, rec)
-    r4_save(prog, rep, fam, mut, rec, lines)
-    r5_readonly(prog, rep, fam)
-    r6_table_kind(prog, rep, fam, mut, lines)
-    r7_derived_and_owned(prog, rep, fam, mut, lines)
+    rep.attempt(lambda: r1_delegation(prog, rep, fam, mut, lines))
+    rep.attempt(lambda: r2_tagged(prog, rep, fam, mut, rec, lines))
+    rep.attempt(lambda: r3_dirty(prog, rep, fam, mut, rec))
+    rep.attempt(lambda: r4_save(prog, rep, fam, mut, rec, lines))
+    rep.attempt(lambda: r5_readonly(prog, rep, fam))
+    rep.attempt(lambda: r6_table_kind(prog, rep, fam, mut, lines))
+    rep.attempt(lambda: r7_derived_and_owned(prog, rep, fam, mut, lines))
+    from .mixins import MIXIN_METHODS, rule_mixin_surface
+    muts = [c for c in fam.line_classes if mut in c.repo_mro()]
+    rep.attempt(lambda: rule_mixin_surface(prog, rep, "C12.R9", muts, analysed={(fam.base.name, "__iter__")}))
+    # "a list of strings that started as the file's lines": the offset index the lines are read through is part of this property
+    from .c11 import r5_index
+    rep.attempt(lambda: r5_index(prog, rep, fam, rule="C12.R10", only_binary=True))
 
 
 def r1_delegation(prog, rep: Report, fam: Family, mut: Cls, lines: str):
